@@ -223,6 +223,16 @@ def run_case(case):
             owners[len(owners) // 2].eval()
             r.count("mixed_mode_subjects")
     model0 = copy.deepcopy(model) if mode == "eval" else None
+    if mode == "eval" and (kind == "dist" or (kind == "flow" and seed % 3 == 1)):
+        # a history in another floating precision: the object is first asked about single-precision data (a float64 model promotes,
+        # or refuses) - constants it converts "to the dtype of the inputs" and keeps would be single-precision afterwards
+        try:
+            x32_, c32_ = mk_inputs(40)
+            with torch.no_grad():
+                model.log_prob(x32_.float() if x32_.is_floating_point() else x32_, None if c32_ is None else c32_.float())
+            r.count("single_precision_pre_calls")
+        except Exception:
+            r.count("single_precision_pre_calls_raised")
     uses_cache = any(getattr(m, "using_cache", False) for m in model.modules())
     nsteps = 3 + seed % 5
     layouts = ["plain", "slice", "noncontig", "requires_grad"]
